@@ -103,7 +103,12 @@ def main(argv):
     # listed known findings: replay each witness on the real code on every run
     for k in common.load_known().get('findings', []):
         if k.get('property') == pid and 'witness' in k and hasattr(mod, 'check_witness'):
-            fp = mod.check_witness(k['witness'])
+            try:
+                fp = mod.check_witness(k['witness'])
+            except Exception as e:
+                # the stored witness cannot even be replayed on this tree (the code under test raises on it): that is not
+                # the listed finding; whatever broke is reported by the run itself
+                fp = f'witness-replay-raised:{type(e).__name__}'
             if fp == k['fingerprint']:
                 res.violations.append(common.Violation(what=k['what'], fingerprint=fp, replay=k['witness']))
             else:
